@@ -14,7 +14,8 @@ RULE = ('all iff/xor-free formulas (<=2 operators, 3-chains) over predicates "va
         'four real monitor kinds (online: past formulas, and bounded-future formulas after pastify; dense: the grid step signal). Oracle 1: a '
         'reported value > 0 (< 0) implies Boolean satisfaction (violation) at that position, with an independently written Boolean evaluator. '
         'Oracle 2: for every reported finite r != 0, EVERY trace over V5 whose samples all differ from the original by less than |r| gets the same '
-        'Boolean verdict (exhaustive over the finite neighbourhood). non-trivial = a reported finite non-zero value whose neighbourhood has more than one trace')
+        'Boolean verdict (exhaustive over the finite neighbourhood). Life layer: both oracles on discrete offline objects that were configured and evaluated under another default '
+        'unit / sampling period before and then switched (vf/reconf.py). non-trivial = a reported finite non-zero value whose neighbourhood has more than one trace')
 ASSUMPTIONS = ['the real-valued perturbation ball of the statement is covered on the integer grid V5 only (stated limit)',
                'Boolean semantics: vf/refsem.sat (discrete), vf/dref._bcells (dense), independent of the robustness evaluators']
 
@@ -68,7 +69,79 @@ def shards(tier):
     out = [{'formulas': [F.to_json(f) for f in fs[i:i + per]]} for i in range(0, len(fs), per)]
     ws = wide_set(tier)
     out += [{'formulas': [F.to_json(f) for f in ws[i:i + 3]], 'wide': True} for i in range(0, len(ws), 3)]
+    out += [{'formulas': [], 'life': i} for i in range(len(life_formulas()))]
     return out
+
+
+def life_formulas():
+    a = PXa
+    return [('always', (0, 2), a), ('eventually', (1, 2), a), ('once', (0, 2), a), ('historically', (1, 2), a), ('until', (0, 1), a, ('pred', '<', F.X, F.C1)),
+            ('or', ('always', (0, 1), a), ('once', (1, 1), ('pred', '>', F.X, ('const', 1.0)))), ('not', ('eventually', (0, 2), ('pred', '<', F.X, F.C1)))]
+
+
+def life_case(case, obj=None):
+    """sign and magnitude soundness on a discrete offline object with an earlier life (vf/reconf.py): the Boolean verdicts are those of the
+    formula with its bounds converted to samples under the configuration in force"""
+    from .. import reconf
+    f = F.from_json(case['formula'])
+    vs = case['vars']
+    if obj is None:
+        c1, f1, spec = reconf.lived_object('dt_off', f, case['suffix'], vs, case['life'])
+    else:
+        c1, f1, spec = obj
+    w = case['trace']
+    n = len(next(iter(w.values())))
+    k, out = impl.outcome(impl.dt_evaluate, spec, w, reconf.times(c1, n))
+    if k != 'ok':
+        return 'evaluate() raised %s' % (out,), 0
+    nt = 0
+    for pos, (t, r) in enumerate(out):
+        if r != r or r == 0:
+            continue
+        v = refsem.sat(f1, w, n)[pos]
+        if (r > 0) != v:
+            return 're-configured object (%s; bounds then denote %s): reported value %r at position %d but the specification is %s there' % (
+                case['life'], F.pr(f1), r, pos, 'satisfied' if v else 'violated'), nt
+        if abs(r) == float('inf'):
+            continue
+        cnt = 0
+        for w2 in neighbours(w, vs, r):
+            cnt += 1
+            if refsem.sat(f1, w2, n)[pos] != v:
+                return ('re-configured object (%s): reported robustness %r at position %d, yet the trace %r (all samples closer than |rho|) has the opposite verdict'
+                        % (case['life'], r, pos, w2)), nt
+        if cnt > 1:
+            nt += 1
+    return None, nt
+
+
+def run_life(shard, tier, res, mod):
+    from .. import reconf
+    f = life_formulas()[shard['life']]
+    fj = F.to_json(f)
+    vs = sorted(F.fvars(f))
+    res.formulas += 1
+    for suffix in ('', 's', 'ms'):
+        text = 'out = ' + F.pr(f, bound=reconf.speller(suffix))
+        case0 = {'life_layer': True, 'formula': fj, 'vars': vs, 'suffix': suffix, 'spec': text}
+        for name, c1, f1, spec in reconf.lived_objects('dt_off', f, suffix, vs, res, mod, case0):
+            traces = list(F.traces(3, F.V5, len(vs)))
+            if F.has_op(f1, F.BIN_T) and F.max_bound(f1) > 100:
+                traces = traces[7::19]
+            for t in traces:
+                case = dict(case0, life=name, trace=F.trace_dict(t, vs))
+                res.evaluations += 1
+                msg, nt = life_case(case, (c1, f1, spec))
+                if msg:
+                    res.violation(mod, case, msg)
+                    res.outcomes['unsound'] += 1
+                else:
+                    res.outcomes['sound'] += 1
+                    res.flags['life_cases'] += 1
+                    res.nontrivial += nt
+                    res.flags['life_nontrivial'] += nt
+                res.digest(text, name, t, msg)
+    res.sample({'spec': text, 'lives': [l[0] for l in reconf.lives()][:4]}, 1)
 
 
 def neighbours(w, vs, r):
@@ -158,6 +231,8 @@ def check_case(case, res=None):
 
 def run_shard(shard, tier, res):
     mod = sys.modules[__name__]
+    if 'life' in shard:
+        return run_life(shard, tier, res, mod)
     for fj in shard['formulas']:
         f = F.from_json(fj)
         vs = sorted(F.fvars(f))
@@ -187,6 +262,9 @@ def run_shard(shard, tier, res):
 
 
 def replay(case):
+    if case.get('life_layer'):
+        m, _ = life_case(case)
+        return [m] if m else []
     m = check_case(case)
     return [m] if m else []
 
@@ -195,4 +273,6 @@ def finalize(agg, outcomes, flags, tier):
     from ..runner import Broken
     if agg['nontrivial'] < 1000:
         raise Broken('vacuous: only %d values with a non-singleton neighbourhood' % agg['nontrivial'])
-    return {}
+    if flags.get('life_nontrivial', 0) < 100:
+        raise Broken('vacuous: only %d such values on re-configured objects' % flags.get('life_nontrivial', 0))
+    return {'cases_on_reconfigured_objects': flags.get('life_cases', 0)}
